@@ -246,13 +246,12 @@ def spectralPost (F : Fn α) (n : Nat) (op : LapOp α) (rw normalized : Bool) (v
 /-- `_split_vars` and the attributes -/
 def spectralResult (nRow : Nat) (bipartite regularized : Bool) (k : Nat) (post : Vec α × Mat α × Mat α) :
     SpectralOut α :=
-  let (eigenvalues, eigenvectors, embedding) := post
   if bipartite then
-    let er := embedding.take nRow
-    { bipartite, regularized, k, eigenvalues, eigenvectors, embedding := er,
-      embeddingRow := some er, embeddingCol := some (embedding.drop nRow) }
+    { bipartite, regularized, k, eigenvalues := post.1, eigenvectors := post.2.1, embedding := post.2.2.take nRow,
+      embeddingRow := some (post.2.2.take nRow), embeddingCol := some (post.2.2.drop nRow) }
   else
-    { bipartite, regularized, k, eigenvalues, eigenvectors, embedding, embeddingRow := none, embeddingCol := none }
+    { bipartite, regularized, k, eigenvalues := post.1, eigenvectors := post.2.1, embedding := post.2.2,
+      embeddingRow := none, embeddingCol := none }
 
 /-- `Spectral.fit`.  `nnz` = number of stored entries (`check_format` refuses an empty matrix),
     `solver op adjacency k` = what `LanczosEig(which='SM').fit(laplacian, k)` returned. -/
